@@ -154,9 +154,19 @@ func VerifC06_BatchStep() {
 	maxRetries := verifNondetInt("maxretries")
 	verifAssume(maxRetries >= 0 && maxRetries <= 8)
 	q.rc.MaxRetries = maxRetries
+	// retries the two objects used up in earlier rounds (a batch mixes fresh
+	// objects with re-enqueued ones)
+	for _, o := range oids {
+		prior := verifChoose("retries.used."+o, 3)
+		verifAssume(prior <= maxRetries)
+		for k := 0; k < prior; k++ {
+			q.rc.Increment(o)
+		}
+	}
 	verifInflight = nil
 	verifBatchResp, verifBatchErr = nil, nil
 	listed := map[string]int{}
+	upToDate := map[string]bool{}
 	unknownListed := false
 	if verifChoose("batch.call", 3) == 0 {
 		// the API call itself fails
@@ -180,6 +190,7 @@ func VerifC06_BatchStep() {
 			case 0:
 				tr.Actions = ActionSet{"download": &Action{Href: "https://example.com/" + o}}
 			case 1: // no action: the server says nothing needs to be transferred
+				upToDate[o] = true
 			case 2:
 				tr.Error = &ObjectError{Code: 404, Message: "not found"}
 			}
@@ -197,7 +208,8 @@ func VerifC06_BatchStep() {
 	verifKnown("C06-F4b-batch-lists-object-twice", twice)
 	verifKnown("C06-F4c-batch-lists-unknown-oid", unknownListed)
 	next, err := q.enqueueAndCollectRetriesFor(b)
-	_ = err
+	// collectBatches reports the returned error; per-object errors were sent already
+	errReported := err != nil || len(q.errorc) > 0
 	verifCover("batch-step")
 	nonTerminal := 0
 	for _, o := range oids {
@@ -217,6 +229,9 @@ func VerifC06_BatchStep() {
 		verifAssert(re <= 1 && !(in == 1 && re == 1), "an object is not both transferred and re-enqueued")
 		if in+re > 0 {
 			nonTerminal++
+		} else if !upToDate[o] {
+			verifCover("object-given-up")
+			verifAssert(errReported, "an object that is neither transferred nor re-enqueued nor declared up to date by the server is covered by a reported error")
 		}
 	}
 	verifAssert(q.wait.counter >= 0, "the pending count never goes negative")
